@@ -77,32 +77,37 @@ def parse_reports(out):
     return conc, reps
 
 
-def run_lspawn(exe, cwd, env, deliveries, dflt=b"./Mailbox", messid=b"0/1234", timeout=120):
-    """deliveries: list of (sender, recipient) bytes, at most 100.  All commands are written at once, then
-    descriptor 0 is closed; qmail-lspawn exits when every delivery has been reported.
-    Returns list of report texts (bytes, first byte = class) or None where no report came."""
-    if len(deliveries) > 100:
-        raise Infra("run_lspawn: too many deliveries for one process")
-    inp = b"".join(bytes([k + 1]) + messid + b"\0" + s + b"\0" + r + b"\0" for k, (s, r) in enumerate(deliveries))
-    p = subprocess.Popen([exe, dflt], stdin=subprocess.PIPE, stdout=subprocess.PIPE, stderr=subprocess.PIPE, env=env, cwd=cwd)
+def run_lspawn(argv, cwd, env, deliveries, timeout=40):
+    """One qmail-lspawn process (the binary may be wrapped): all commands are written at once, then descriptor 0 is
+    closed; qmail-lspawn exits when every delivery has been reported.  Returns (reports, hung): report texts (first
+    byte = class) or None where no report came; hung = the process had to be killed."""
+    inp = b"".join(bytes([k + 1]) + b"0/1234\0" + s + b"\0" + r + b"\0" for k, (s, r) in enumerate(deliveries))
+    p = subprocess.Popen(argv, stdin=subprocess.PIPE, stdout=subprocess.PIPE, stderr=subprocess.PIPE, env=env, cwd=cwd, start_new_session=True)
+    hung = False
     try:
         out, err = p.communicate(inp, timeout=timeout)
     except subprocess.TimeoutExpired:
-        p.kill()
+        hung = True
+        try:
+            os.killpg(p.pid, 9)
+        except OSError:
+            p.kill()
         out, err = p.communicate()
-        raise Infra("qmail-lspawn hung: %r %r" % (out[:200], err[:200]))
+    if hung:
+        # cut an unfinished report off
+        out = out[:out.rfind(b"\0") + 1] if len(out) > 1 else out[:1]
     conc, reps = parse_reports(out)
-    if conc is None:
+    if conc is None and not hung:
         raise Infra("qmail-lspawn wrote nothing (exit %s): %r" % (p.returncode, err[:300]))
     res = []
     for k in range(len(deliveries)):
         r = reps.get(k + 1, [])
         if len(r) > 1:
             raise Infra("two reports for one delivery number: %r" % r)
-        res.append(r[0] if r else None)
         if r and MARK_FAIL in r[0]:
             raise Infra("the stand-in qmail-local failed: %r" % r[0])
-    return res
+        res.append(r[0] if r else None)
+    return res, hung
 
 
 def collect_standin(d):
